@@ -175,6 +175,21 @@ Definition detect_body (fin : string) (ev : evtype) (body : json)
   if is_deleted_event ev then Ok (Gone, initial)
   else bind (atoms_of_body fin ev body old_none diff_empty initial) (fun a => Ok (detect a)).
 
+(* The part of a body the functions above read.  Proofs/Causes.v proves that every function of this
+   file gives the same answer on [core_body b] as on [b]; the correspondence check uses this to keep
+   its case files small (and still sends a share of the bodies in full). *)
+Definition core_key (k : string) : bool := String.eqb k "deletionTimestamp" || String.eqb k "finalizers".
+Definition core_body (body : json) : json :=
+  match body with
+  | JObj kvs =>
+      JObj (match lookup "metadata" kvs with
+            | Some (JObj mk) => [("metadata", JObj (filter_keys core_key mk))]
+            | Some m => [("metadata", m)]
+            | None => []
+            end)
+  | _ => body
+  end.
+
 (* ---------- handlers ---------- *)
 Record hdecl := {
   h_key : nat;                   (* stands for (id(handler.fn), handler.id) in _deduplicated *)
